@@ -143,6 +143,17 @@ func main() {
 	only := flag.String("only", "", "print only obligations whose construct contains this text")
 	listControls := flag.Bool("list-controls", false, "list positive controls")
 	flag.Parse()
+	// watchdog: an analysis that has not finished after 20 minutes is stuck (a rule looping); fail loudly instead of
+	// eating the machine
+	go func() {
+		lim := 20 * time.Minute
+		if *tier == "thorough" {
+			lim = 3 * time.Hour
+		}
+		time.Sleep(lim)
+		fmt.Printf("omnilint: FATAL: analysis of %s%s did not finish within %s\nVIOLATION property=%s replay=-\n", *prop, *props, lim, *prop)
+		os.Exit(1)
+	}()
 	if *listControls {
 		for _, c := range rules.Controls {
 			fmt.Printf("%s\t%s\t%s\t%s\n", c.ID, c.Prop, c.Rule, c.File)
